@@ -35,10 +35,45 @@ def _alarm(signum, frame):  # pragma: no cover - only on hangs
     raise CaseTimeout()
 
 
+_caches: list = []
+_caches_seen_modules = -1
+
+
+def reset_process_state() -> None:
+    """One run must not depend on the runs before it in the same process.  Memoising caches in the code under test
+    (``functools.lru_cache`` / ``cache`` on module-level functions and on methods) are process-wide state of exactly that
+    kind: they are emptied before every case, so a case starts like a fresh process.  State *inside* a case is
+    untouched - a cache that goes stale during one history still shows."""
+    global _caches_seen_modules
+    import sys
+
+    if len(sys.modules) != _caches_seen_modules:
+        _caches_seen_modules = len(sys.modules)
+        found = []
+        for name, mod in list(sys.modules.items()):
+            if mod is None or not (name == "werkzeug" or name.startswith("werkzeug.")):
+                continue
+            for obj in list(vars(mod).values()):
+                if callable(getattr(obj, "cache_clear", None)):
+                    found.append(obj)
+                elif isinstance(obj, type) and getattr(obj, "__module__", "") == name:
+                    for member in list(vars(obj).values()):
+                        member = getattr(member, "__func__", member)
+                        if callable(getattr(member, "cache_clear", None)):
+                            found.append(member)
+        _caches[:] = found
+    for f in _caches:
+        try:
+            f.cache_clear()
+        except Exception:  # noqa: BLE001
+            pass
+
+
 def run_case(scn: Scenario, case: dict) -> Outcome:
     """Execute one case under the per-case CPU budget.  Exceptions escaping
     ``execute`` are harness errors, except the CPU alarm, which is the
     non-termination bound and becomes a violation."""
+    reset_process_state()
     signal.signal(signal.SIGVTALRM, _alarm)
     signal.setitimer(signal.ITIMER_VIRTUAL, scn.cpu_limit)
     try:
